@@ -9,8 +9,9 @@ slot, nslots = int(sys.argv[1]), int(sys.argv[2])
 prefix = sys.argv[3] if len(sys.argv) > 3 else ""
 seeds = sorted(d for d in os.listdir("/verif/seeded") if d.startswith(prefix) and os.path.exists("/verif/seeded/%s/patch.diff" % d))
 mine = [s for i, s in enumerate(seeds) if i % nslots == slot]
-wt = "/tmp/rg-%d" % slot
-base = "/tmp/mh-rg-%d" % slot
+rid = os.environ.get("RG_ID", str(slot))      # worktree / harness copy of this lane
+wt = "/tmp/rg-%s" % rid
+base = "/tmp/mh-rg-%s" % rid
 h = base + "/harness"
 
 
